@@ -229,7 +229,7 @@ func RunDeployReplace(ar *Arena, newState bool, ops []Op) (fs []ProbeFinding, no
 	for _, how := range []How{ByNumber, ByHash} {
 		got := Observe(p.Fol.BC, u, how, n, p.Chain[n].Block.Hash)[0]
 		note += fmt.Sprintf(" %s=%s", how, got)
-		if got != head {
+		if got != head && len(fs) == 0 { // one finding per root cause: by hash only when by number is right
 			fs = append(fs, ProbeFinding{
 				Class: fmt.Sprintf("%s:%s:class:deploy+replace-same-block", backend, how),
 				What: fmt.Sprintf("%s backend: block %d deploys 0x64 with class a and replaces its class by b: ContractClassHash %s at that block = %s, head = %s; ops: %s",
